@@ -696,6 +696,7 @@ class RandomVariables(CollectionsSequence, Immutable):
         --------
         unjoin
         """
+        inds = [ind.name if not isinstance(ind, str) else ind for ind in inds]
         if any(item not in self.names for item in inds):
             raise KeyError("Cannot join non-existing random variable")
         joined_rvs = self[inds]
